@@ -38,7 +38,12 @@ RULE = ("direct oracle: every operation (C01 valid encode/decode, C04 malformed 
         "responses, structure, nested structure, field items, MUX case) x key DOPs x user types x values, every value encoded and the PDUs of both "
         "modes + all short byte strings decoded, compared with drv_codec under both flags (the model carries the lenient continuation of every such "
         "problem); scenario undefined-length-key: the same through DiagService.encode_request / encode_positive_response / Request.encode / "
-        "Response.encode with the user in another structure than its key. Violations: strict result ok and "
+        "Response.encode with the user in another structure than its key. Round 7 family enum-dct-grid: ill-formed TYPE descriptions (every "
+        "DIAG-CODED-TYPE kind x every base data type x legal and illegal sizes / encodings / bit masks / length limits, as VALUE, CODED-CONST, "
+        "PHYS-CONST, in a structure), not filtered by loadability; for a description that strict mode refuses to load the whole oracle (both call "
+        "histories, fresh interpreter) is evaluated on the objects of a non-strict load, the model's replies are compared with the results on those "
+        "objects too, and 'the library reports a problem while loading in strict mode + the model reports it at every strict call + the objects of "
+        "a non-strict load answer the strict call with a result' is a failing input. Violations: strict result ok and "
         "lenient result different; a result that depends on anything but the flag at the time of the call; re-enabling strict mode does not "
         "restore the error. Correspondence: the same encode/decode/emplace/extract lines with (strict t) and (strict f) against drv_codec. "
         "Table obligation: the regenerated list of catch sites and flag accesses equals the accounted list (Python comparison + Lean `decide`). "
@@ -49,6 +54,9 @@ ASSUMPTIONS = ["'identical result' = same PDU and warning flag / same decoded va
                "object, parameters) / same matched variant; exceptions by class",
                "non-strict mode is allowed to do anything when strict mode raises (it may even raise a foreign exception); only 'strict succeeded' "
                "constrains the non-strict result, and 'strict raised an OdxError' must be restored by re-enabling strict mode",
+               "a description that strict mode refuses to load and whose non-strictly loaded objects work in strict mode is not a violation by itself "
+               "(load-time-only validations exist on the unchanged tree, e.g. MIN-MAX-LENGTH on A_INT32); it is one if the model reports the problem "
+               "at every strict call (the problem was repaired once, while loading, instead of being downgraded call by call)",
                "the flag cannot be set before `import odxtools` without an import hook (the package imports all of its modules); the worker's hook is "
                "the earliest possible point",
                "cli/browse.py (interactive), cli/snoop.py (needs a CAN bus) are accounted by argument, not executed",
@@ -840,6 +848,90 @@ def enum_key_protocol(big):
             yield f"{ttag}/{cont}", comp, vs, pdus
 
 
+ALL_ENCODINGS = [None, "NONE", "2C", "1C", "SM", "BCD-P", "BCD-UP", "UTF-8", "UCS-2", "ISO-8859-1", "ISO-8859-2", "WINDOWS-1252"]
+
+
+def enum_dct_grid(big):
+    """round 7: *ill-formed type descriptions* -- every DIAG-CODED-TYPE kind x every BASE-DATA-TYPE x legal AND illegal sizes, encodings and
+    masks.  The ODX specification restricts the combinations (a float occupies 32 / 64 bits, strings and byte fields whole bytes / code units, a
+    BIT-MASK needs an integer or a byte field, MIN-MAX / LEADING-LENGTH / PARAM-LENGTH types hold strings and byte fields, each base type has its
+    own encodings, MIN-LENGTH <= MAX-LENGTH, ...); a document that ignores a restriction is the use case of non-strict mode, and where the
+    library notices it -- while the document is loaded or on every en-/decoding call -- is the library's business.  Whatever it does, the
+    outcome of a call may depend on the flag at the time of the call only.  These descriptions are NOT filtered by loadability: a description
+    that strict mode refuses to load is run under the schedules that load it in non-strict mode (see `run`).
+    Yields (tag, composite, [value], [pdu])."""
+    from odxgen import desc as D
+    u8, val = D.u8, D.value
+    vals = {"A_INT32": [5, -3, 0, 70000], "A_UINT32": [5, 0, 255, 70000], "A_FLOAT32": [1.5, 0.0, -2.25, 1e39], "A_FLOAT64": [1.5, 0.0, -2.25, 1e39],
+            "A_BYTEFIELD": [b"\x01\x02", b"", b"\x07", b"\x01\x02\x03\x04", b"\x01\x02\x03\x04\x05\x06\x07\x08"]}
+    svals = ["ab", "", "a", "abcd", "ä€"]
+    consts = {"A_INT32": [-3], "A_UINT32": [5], "A_FLOAT32": [1.5], "A_FLOAT64": [1.5], "A_BYTEFIELD": [b"\x01\x02"]}
+    if big:
+        bodies = ["", "00", "41", "ff", "4142", "3fc0", "0102ff", "3fc00000", "41004200", "4142434400", "3ff8000000000000", "ffffffffffffffffff",
+                  "024142", "0841424344454647"]
+        pdus = [bytes.fromhex("22" + b + t) for b in bodies for t in ("", "01")]
+    else:
+        pdus = [bytes.fromhex("22" + b) for b in ("", "4101", "414201", "3fc001", "3fc0000001", "414243440001", "3ff800000000000001", "02414201")]
+
+    def emit(tag, dct, where="value", nv=None):
+        bt = dct.bt
+        vs = vals.get(bt, svals)[:nv]
+        if where == "value":
+            comp = D.Composite("T", "request", [D.sid(), val("x", D.SimpleDop(dct, bt)), val("y", u8())])
+            return f"{tag}/{where}", comp, [{"x": v, "y": 1} for v in vs] + ([{"y": 1}] if big or nv is None else []), pdus
+        if where == "coded-const":
+            comp = D.Composite("T", "request", [D.sid(), D.coded_const("x", dct, consts.get(bt, ["ab"])[0]), val("y", u8())])
+            return f"{tag}/{where}", comp, [{"y": 1}, {"x": vs[0], "y": 1}], pdus
+        if where == "phys-const":
+            comp = D.Composite("T", "request", [D.sid(), D.phys_const("x", D.SimpleDop(dct, bt), consts.get(bt, ["ab"])[0]), val("y", u8())])
+            return f"{tag}/{where}", comp, [{"y": 1}], pdus
+        if where == "struct":       # no SID in front: the object starts the PDU
+            comp = D.Composite("T", "structure", [val("x", D.SimpleDop(dct, bt)), val("y", u8())])
+            return f"{tag}/{where}", comp, [{"x": v, "y": 1} for v in vs[:2]], [p[1:] for p in pdus]
+        raise KeyError(where)
+
+    natural = {"A_FLOAT32": 32, "A_FLOAT64": 64, "A_UNICODE2STRING": 16}
+    lens = [0, 1, 7, 8, 12, 16, 24, 31, 32, 33, 48, 63, 64, 65, 72] if big else [0, 1, 8, 12, 16, 32, 33, 64, 65]
+    for bt in D.BASE_TYPES:
+        nat = natural.get(bt, 16 if bt not in ("A_INT32", "A_UINT32") else 12)
+        odd = {"A_FLOAT32": 16, "A_FLOAT64": 32, "A_UNICODE2STRING": 24}.get(bt, 12 if bt not in ("A_INT32", "A_UINT32") else 65)
+        # (1) STANDARD-LENGTH-TYPE: every boundary size
+        for bl in lens:
+            yield emit(f"std/{bt}/len{bl}", D.Std(bt, bl))
+            if bl in (nat, odd):
+                for where in ("coded-const", "phys-const", "struct"):
+                    yield emit(f"std/{bt}/len{bl}", D.Std(bt, bl), where)
+                yield emit(f"std/{bt}/len{bl}/lowhigh", D.Std(bt, bl, None, False), nv=2)
+        # (2) every encoding (legal or not for the type) at a legal and at an illegal size
+        for enc in ALL_ENCODINGS[1:]:
+            for bl in ((nat, odd) if big else (nat,) if enc not in D.LEGAL_ENCODINGS[bt] else (odd,)):
+                yield emit(f"std/{bt}/len{bl}/enc-{enc}", D.Std(bt, bl, enc), nv=2)
+        # (3) BIT-MASK (plain and condensed) on every type
+        for bl in (nat, odd):
+            for mask in ((0x0F, 0xFF00, 0) if big or bl == nat else (0x0F,)):
+                for cond in ((None, True) if big or (mask == 0x0F and bl == nat) else (None,)):
+                    yield emit(f"std/{bt}/len{bl}/mask{mask:x}{'c' if cond else ''}", D.Std(bt, bl, None, None, mask, cond), nv=2)
+        # (4) MIN-MAX-LENGTH-TYPE: every termination x consistent and inconsistent limits
+        for term in ("ZERO", "HEX-FF", "END-OF-PDU"):
+            for mn, mx in ((0, None), (0, 2), (1, 1), (2, 1), (0, 0), (3, 70)):
+                if term != "ZERO" and not big and (mn, mx) not in (((0, 2), (2, 1)) if term == "HEX-FF" else ((0, 2),)):
+                    continue
+                yield emit(f"minmax/{bt}/{term}/{mn}-{mx}", D.MinMax(bt, mn, mx, term), nv=3)
+        for enc in ALL_ENCODINGS[1:]:
+            if big or (enc not in D.LEGAL_ENCODINGS[bt] and enc in ("2C", "BCD-P", "UTF-8", "UCS-2")):
+                yield emit(f"minmax/{bt}/enc-{enc}", D.MinMax(bt, 0, 4, "ZERO", enc), nv=2)
+        # (5) LEADING-LENGTH-INFO-TYPE: sizes of the length field
+        for bl in (0, 3, 8, 16, 65):
+            yield emit(f"leading/{bt}/len{bl}", D.Leading(bt, bl), nv=3)
+        yield emit(f"leading/{bt}/len8/lowhigh", D.Leading(bt, 8, None, False), nv=2)
+        # (6) PARAM-LENGTH-INFO-TYPE: the size comes from a key (every boundary size as an explicit key value and from the PDU)
+        kd = D.SimpleDop(D.Std("A_UINT32", 8), "A_UINT32")
+        comp = D.Composite("T", "request", [D.sid(), D.length_key("k", kd), val("x", D.SimpleDop(D.ParamLen(bt, "k"), bt)), val("y", u8())])
+        vs = vals.get(bt, svals)
+        yield (f"paramlen/{bt}", comp, [{"k": k, "x": v, "y": 1} for k in (0, 8, 12, 16, 32, 33, 64, 72) for v in vs[:2]] + [{"x": v, "y": 1} for v in vs],
+               [bytes.fromhex("22" + k + b) for k in ("00", "08", "0c", "10", "20", "21", "40", "48") for b in ("", "4142", "3fc0000001", "3ff800000000000001ff")])
+
+
 def gen_cases(ctx, big):
     """the operations of C01/C04/C05 (+ corpus, scenarios, somersault, atomic) as JSON cases"""
     import atomic_lib as A
@@ -1036,6 +1128,17 @@ def gen_cases(ctx, big):
                 ctx.count("case_generation_skipped")
     finally:
         set_flag(keep_flag)
+    # round 7: ill-formed type descriptions (kind x base type x legal and illegal sizes / encodings / masks) -- NOT filtered by loadability: what
+    # strict mode refuses to load is exercised on objects loaded in non-strict mode (the use case of non-strict mode)
+    try:
+        for tag, comp, vs, pdus in enum_dct_grid(big):
+            ctx.histo("dct_grid_kind", tag.split("/")[0])
+            for v in vs:
+                enc(comp, v, None, "enum-dct-grid")
+            for b in pdus:
+                dec(comp, b, "enum-dct-grid")
+    except Exception as e:  # noqa
+        ctx.notes.append(f"enum-dct-grid cases not generated: {e!r}"[:200])
     # generated descriptions: C01 valid values, C04 mutants, C05 byte strings
     n_docs = 1500 if big else 420
     arng2 = ctx.sub_rng("ambiguity")
@@ -1225,6 +1328,13 @@ def run(ctx):
         stateful = [c["op"] != "atomic" for c in cases]                  # atomic cases build their objects anew for every call
         for tag, flag in (("lf-1", False), ("lf-2", True), ("lf-3", False)):
             results[tag] = [run_op(c, True, flag, "lenient-first") if st else None for c, st in zip(cases, stateful)]
+        # round 7: descriptions that strict mode refuses to LOAD exist as objects only when they were loaded in non-strict mode. Every schedule
+        # above that loads in strict mode is vacuous for them ("load-error"), so both call histories are run on the non-strictly loaded objects
+        unloadable = [str(r).startswith("load-error") for r in results[(True, True)]]
+        results["nl-again"] = [run_op(c, False, True) if u else None for c, u in zip(cases, unloadable)]
+        results["nl-again-f"] = [run_op(c, False, False) if u else None for c, u in zip(cases, unloadable)]
+        for tag, flag in (("nl-lf-1", False), ("nl-lf-2", True), ("nl-lf-3", False)):
+            results[tag] = [run_op(c, False, flag, "lenient-first") if u else None for c, u in zip(cases, unloadable)]
     finally:
         set_flag(keep)
     workers = {}
@@ -1254,6 +1364,31 @@ def run(ctx):
         if c["op"] == "encode" and "system" in op_features(c) and results["again"][i] != s:
             ctx.count("nondeterministic(SYSTEM parameter reads the clock)")
             continue
+        if unloadable[i]:
+            # round 7: strict mode refuses to load the description. The objects of a non-strict load: (a) the problem is downgraded (no foreign
+            # exception while loading), (b) a strict success implies the same non-strict result, (c) the result of a call depends on the flag
+            # at the time of the call only (both histories, fresh interpreter)
+            ctx.histo("unloadable-in-strict-mode", s.split(":")[1] if ":" in s else "?")
+            ns, nl = results[(False, True)][i], results[(False, False)][i]
+            ctx.histo("loaded-non-strict: strict/lenient", ("load-error" if ns.startswith("load-error") else "ok" if is_ok(ns) else "odxerror" if is_odx_error(ns) else "foreign") + "/" +
+                      ("same" if nl == ns else "ok" if is_ok(nl) else "odxerror" if is_odx_error(nl) else "foreign"))
+            if s.startswith("load-error:odx") and ns.startswith("load-error:foreign"):
+                report("switch-takes-effect-immediately", c, "load-problem-downgraded", {"strict": s[:300], "lenient": ns[:300]},
+                       f"a problem that strict mode reports as an OdxError while loading ({s[:80]}) makes non-strict loading end in {ns[:80]}")
+            if is_ok(ns) and nl != ns:
+                report("strict-success-implies-same-lenient-result", c, "different-result(loaded-non-strict)", {"strict": ns[:600], "lenient": nl[:600]},
+                       f"{c['op']} on a description loaded in non-strict mode succeeds in strict mode but non-strict mode returns something else: {ns[:120]} vs {nl[:120]}")
+            for name, r, want in (("re-enabling-strict-restores-the-result(loaded-non-strict)", results["nl-again"][i], ns),
+                                  ("switching-again-to-lenient-gives-the-lenient-result(loaded-non-strict)", results["nl-again-f"][i], nl),
+                                  ("lenient-first-call-on-fresh-objects-gives-the-lenient-result(loaded-non-strict)", results["nl-lf-1"][i], nl),
+                                  ("strict-after-a-lenient-first-call-gives-the-strict-result(loaded-non-strict)", results["nl-lf-2"][i], ns),
+                                  ("lenient-again-after-lenient-strict-gives-the-lenient-result(loaded-non-strict)", results["nl-lf-3"][i], nl),
+                                  ("fresh-interpreter:import-f/call-f(loaded-non-strict)", workers["import-f/call-f"][i] if "import-f/call-f" in workers else None, nl),
+                                  ("fresh-interpreter:import-f/call-t", workers["import-f/call-t"][i] if "import-f/call-t" in workers else None, s)):
+                if r is not None and r != want:
+                    report("switch-takes-effect-immediately", c, name, {"expected": want[:600], "got": r[:600]},
+                           f"{c['op']}: {name}: expected {want[:100]} got {r[:100]}")
+            continue
         if is_ok(s) and l != s:
             report("strict-success-implies-same-lenient-result", c, "different-result", {"strict": s[:600], "lenient": l[:600]},
                    f"{c['op']} succeeds in strict mode but non-strict mode returns something else: {s[:120]} vs {l[:120]}")
@@ -1277,25 +1412,45 @@ def run(ctx):
     if drv.available():
         lines, meta = [], []
         for i, c in enumerate(cases):
-            for strict, sched in ((True, (True, True)), (False, (True, False))):
+            for strict in (True, False):
                 ln = model_line(c, strict)
-                if ln is not None:
+                if ln is None:
+                    continue
+                # round 7: the model describes CALLS and knows no 'flag while loading': its reply is compared with the result on the objects of
+                # a strict load and -- where that differs or does not exist -- with the result on the objects of a non-strict load. A problem
+                # that the model reports at every call must not disappear because the lenient loader repaired the object once.
+                a, b = results[(True, strict)][i], results[(False, strict)][i]
+                for how, impl in (("", a), ("/loaded-lenient", b if b != a else None)):
+                    if impl is None:
+                        continue
+                    if impl.startswith("load-error"):
+                        ctx.count("corr_not_loadable" + how)
+                        continue
                     lines.append(ln)
-                    meta.append((i, strict, results[sched][i]))
+                    meta.append((i, strict, impl, how))
         try:
             replies = drv.query(lines)
         except Exception as e:  # noqa
             replies = None
             ctx.notes.append(f"driver failed: {e!r}"[:300])
         if replies is not None:
-            for (i, strict, impl), ln, rep in zip(meta, lines, replies):
+            for (i, strict, impl, how), ln, rep in zip(meta, lines, replies):
                 rep = rep.strip()
                 if rep in ("(unsupported)", "(bad-args)", "(not-implemented)", "(bad-line)"):
                     ctx.count("corr_" + rep.strip("()") + ("" if strict else "(lenient)"))
                     continue
                 ctx.traces += 1
                 if canon17(rep) != canon17(impl):
-                    ctx.disagree("strict" if strict else "lenient", ln[:3000], rep[:1500], impl[:1500])
+                    ctx.disagree(("strict" if strict else "lenient") + how, ln[:3000], rep[:1500], impl[:1500])
+                    s0 = results[(True, True)][i]
+                    if how and strict and s0.startswith("load-error:odx") and canon17(rep) == "(err odxerror)" and is_ok(impl):
+                        # round 7, a failing input for "re-enabling strict mode restores the error": the library itself reports a problem of
+                        # this description in strict mode (it refuses to load it), the description of the calls (the model) reports it at every
+                        # strict call -- and the objects of a non-strict load answer the strict call as if nothing was wrong
+                        report("switch-takes-effect-immediately", cases[i], "strict-call-on-objects-loaded-non-strict-reports-the-problem",
+                               {"strict-load": s0[:300], "model_strict": rep[:300], "got": impl[:600]},
+                               f"{cases[i]['op']}: strict mode refuses to load the description ({s0[:90]}); loaded in non-strict mode and called in "
+                               f"strict mode it returns {impl[:100]} where every strict call has to report the problem (model: {rep[:40]})")
             if lines:
                 ctx.sample({"request": lines[0][:300], "model": replies[0][:120], "impl": meta[0][2][:120]})
     else:
@@ -1314,6 +1469,19 @@ def replay(ctx, data):
         l1 = run_op(c, True, False, "lenient-first")
         s3 = run_op(c, True, True, "lenient-first")
         l3 = run_op(c, True, False, "lenient-first")
+        if s.startswith("load-error"):
+            # round 7: strict mode refuses to load the description -- the same oracle on the objects of a non-strict load
+            ns, nl, ns2 = run_op(c, False, True), run_op(c, False, False), run_op(c, False, True)
+            n1, n2, n3 = (run_op(c, False, fl, "lenient-first") for fl in (False, True, False))
+            if w.get("model_strict") and is_ok(ns) and s.startswith("load-error:odx"):
+                try:
+                    ln = model_line(c, True)
+                    if ln is not None and canon17(ctx.driver("drv_codec").query([ln])[0]) == "(err odxerror)":
+                        return False
+                except Exception:  # noqa
+                    pass
+            return (not (is_ok(ns) and nl != ns) and ns2 == ns and n1 == nl and n2 == ns and n3 == nl
+                    and not (s.startswith("load-error:odx") and ns.startswith("load-error:foreign")))
     finally:
         set_flag(keep)
     return not (is_ok(s) and l != s) and s2 == s and f == s and l1 == l and s3 == s and l3 == l
